@@ -494,10 +494,14 @@ def type_universe(w):
 
 
 def run(ctx):
+    import time as _time
+    _t0 = _time.time()
+    phases = {}
     import unified_planning as up
     from unified_planning.exceptions import UPTypeError
 
     ok_proofs = ctx.check_props(extra=["theories/Corr/Corr_C15.v"])
+    phases['proofs_s'] = round(_time.time() - _t0, 1)
     rng = ctx.rng
     w = W15(rng)
     names = Names()
@@ -582,8 +586,10 @@ def run(ctx):
     preamble = "Definition G0 : tenv := %s.\nDefinition pool : list finterp := %s.\n" % (env_g, glist(pool_g))
 
     cases = ["{| c_expr := %s; c_obs := %s |}" % (s, ser_obs(o, names)) for s, o, n, origin in records]
-    bad = ctx.coq_failing(cases, "(ok G0 pool)", imports=IMPORTS, preamble=preamble, shard=120 if ctx.quick else 250)
+    phases['generate_and_run_impl_s'] = round(_time.time() - _t0, 1)
+    bad = ctx.coq_failing(cases, "(ok G0 pool)", imports=IMPORTS, preamble=preamble, shard=max(80, min(300, (len(cases) + 7) // 8)))
 
+    phases['coq_cases_s'] = round(_time.time() - _t0, 1)
     stats = {"outcomes": {}, "origins": {}, "top_ops": {}, "sizes": {}, "result_kinds": {}}
     nontrivial = set()
     defined_evals = 0
@@ -719,6 +725,7 @@ def run(ctx):
         "samples": [{"expr": str(r[2]) if r[2] is not None else r[0][:200], "outcome": [r[1][0], str(r[1][1]) if len(r[1]) > 1 else None],
                      "origin": r[3]} for r in (records[:3] + records[-2:])],
         "distribution": stats,
+        "phase_times_cumulative": phases,
         "equality_pairs": len(eq_cases), "equality_pairs_exhaustive_over_universe": True,
         "equality_accepted": sum(1 for r in eq_raw if r[2]),
         "compatibility_pairs": len(comp_cases),
